@@ -30,8 +30,19 @@ def pick(quick: Any, thorough: Any) -> Any:
     return quick if QUICK else thorough
 
 
+MODEL_ERROR_LOG: list[str] = []  # every HarnessModelError constructed in this process (even if later swallowed)
+
+
 class HarnessModelError(Exception):
-    """A stub was used outside what it models: the run is inconclusive, never green or red."""
+    """A stub was used outside what it models: the run is inconclusive, never green or red.
+
+    Construction is logged, so the worker notices a model error even when the code under test (or a
+    harness) swallows it with a broad ``except Exception``.
+    """
+
+    def __init__(self, *args: Any) -> None:
+        super().__init__(*args)
+        MODEL_ERROR_LOG.append(str(args[0])[:300] if args else "")
 
 
 @dataclass
